@@ -42,6 +42,8 @@ class HashTable:
             Number of significant digits to keep for the hash table
         '''
         self.hash_sensitivity = np.power(10, int(s))
+        #Keys computed at the previous precision are not comparable with new ones
+        self.cachedData = {}
 
     def _hashingFunction(self, x: np.array, T: np.array):
         '''
